@@ -39,6 +39,7 @@ def run(ctx, sess):
     ctx.not_decided = NOT_DECIDED
     ctx.rule('C09.10', 'distances between sample ids are narrowed only when bounded: every conversion of a 64-bit difference of two ids to 32 bits in the block writer is preceded on every path by a 64-bit compare that relates the same two ids to a third quantity (the length), so a distance of 2^32 or more is never mistaken for a small one')
     ctx.rule('C09.12', '"the signal length equals last id + 1 - first id": a block is left out only when it is full - the sample count of a partial block (zeros written behind a gap, then the end of the signal) exists only in its data chunk (shared with C15.7 / C01.h)')
+    ctx.rule('C09.13', 'a block the queue refused can be submitted again ("every other sample reads back exactly" through the threaded writer): before the message is queued, a producer call stores nothing into the writer object that its own conditions test - a refused call leaves no state behind that changes how the retry is treated')
     ctx.rule('C09.11', 'a window without samples is absent, not a set of sentinels: where the reader turns an accumulator into a {mean, min, max, std} entry, the fields are delivered only behind a test of the sample count (an empty accumulator becomes NaN, as on the level-0 path)')
     ctx.rule('C09.8', 'an all-gap piece is absent, not NaN: combining with an empty accumulator copies the other operand / resets the target (shared with C20.2)')
     from .common import relay
@@ -518,6 +519,8 @@ def run(ctx, sess):
     empty_window_rule(ctx, P)
     from .c15 import full_block_only
     full_block_only(ctx, P, 'C09.12')
+    from .c07 import refused_send_rule
+    refused_send_rule(ctx, P, 'C09.13')
 
 
 def single_packer(ctx, P):
